@@ -227,6 +227,27 @@ Proof.
   cbn [flat_map length fst snd]. rewrite app_length. pose proof (dispatch_ev_at_most_one w e). lia.
 Qed.
 
+(* several changes in one pass: each one is routed by the rule on its own *)
+Lemma data_pass_eq_spec :
+  forall c added, dispatch_data_pass c added = flat_map (fun i => spec_ev c (EvData i)) added.
+Proof.
+  intros c added. unfold dispatch_data_pass. induction added as [|i t IH]; [reflexivity|].
+  cbn [flat_map]. rewrite dispatch_ev_eq_spec, IH. reflexivity.
+Qed.
+
+(* when the subscriber's mask enables data-on-readers EVERY change of the pass is signalled as
+   data-on-readers on the subscriber and none as data-available *)
+Lemma data_pass_all_on_readers :
+  forall c added, en (w_sub c) KDOR = true ->
+    dispatch_data_pass c added =
+      if l_inst (w_sub c) then repeat (LSub, KDOR) (length added) else [].
+Proof.
+  intros c added H. unfold dispatch_data_pass. induction added as [|i t IH].
+  - destruct (l_inst (w_sub c)); reflexivity.
+  - cbn [flat_map length repeat]. rewrite IH. cbn [dispatch_ev]. unfold dispatch_data. rewrite H.
+    unfold send. destruct (l_inst (w_sub c)); reflexivity.
+Qed.
+
 (* the finite decision table, as a check of the whole table by computation: for the 2^6
    installed/enabled combinations the coded chain and the rule give the same answer *)
 Definition bools : list bool := [true; false].
